@@ -205,7 +205,7 @@ def table_tok_cases(rnd, tier):
         n = rnd.choice([1, 2, 3, 5, 9, 20, 64])
         m = random_mesh(rnd, n)
         n = m.ncell
-        recon = rnd.choice(fd.ALL_RECONS)
+        recon = rnd.choice(fd.TOKEN_RECONS)
         bcl, bcr = rnd.choice(O.BC_CHOICES)
         mode = c % 3
         xc = np.asarray(m.centers())
@@ -256,7 +256,7 @@ def multi_component_cases(rnd, tier):
         n = rnd.choice([3, 4, 7, 12])
         m = random_mesh(rnd, n)
         n = m.ncell
-        recon = rnd.choice(fd.ALL_RECONS)
+        recon = rnd.choice(fd.TOKEN_RECONS)
         system = ["euler", "sw"][c % 2]
         xc = np.asarray(m.centers(), dtype=float)
         xf = np.asarray(m.xf, dtype=float)
@@ -290,6 +290,8 @@ def multi_component_cases(rnd, tier):
                 # interior faces: both states are cell values of the neighbours, bitwise
                 const_bad += int(np.sum(pL[q][1:] != cell)) + int(np.sum(pR[q][:-1] != cell))
             elif recon != "extrapol1" and n >= 3:
+                if recon in ("muscl_vanalbada", "muscl_vanleer") and abs(be[q]) < 1e-3:
+                    continue        # the smooth limiters return phi(a, a) = a within 1e-20 / a^2 only (C12): slopes of 1e-3 and more
                 sc = float(np.max(np.abs(cell))) + abs(be[q]) * span
                 a0 = (al[q] - (2.0 if (system == "euler" and q == 1) else 0.0))
                 for k in range(1, n - 1):
